@@ -893,11 +893,16 @@ pub struct PeerW {
     pub last_adv: std::cell::Cell<(i64, i64)>,
     /// the highest right edge any emitted segment (the SYN-ACK included) has advertised, window fields read as octets
     pub max_edge: std::cell::Cell<i64>,
+    /// the window-scale option of the socket's SYN / SYN-ACK (-1: none)
+    pub sock_ws: std::cell::Cell<i64>,
 }
 
 impl PeerW {
     fn note_adv(&self, outs: &[Value]) {
         for o in outs {
+            if o["syn"].as_bool() == Some(true) {
+                self.sock_ws.set(o["ws"].as_i64().unwrap_or(-1));
+            }
             if o["rst"].as_bool() == Some(false) && o["ha"].as_bool() == Some(true) {
                 self.max_edge.set(self.max_edge.get().max(o["ack"].as_i64().unwrap_or(0) + o["win"].as_i64().unwrap_or(0)));
             }
@@ -910,7 +915,7 @@ impl PeerW {
         let mut num = Numbering::default();
         num.iss[0] = Some(peer_iss);
         let ts_on = cfg.ts;
-        PeerW { ep: Ep::new(1, cfg, Instant::from_millis(0)), num, now: 0, peer_iss, peer_fin: -1, ts_on, ts_echo: std::cell::Cell::new(0), ts_count: std::cell::Cell::new(0), last_adv: std::cell::Cell::new((-1, -1)), max_edge: std::cell::Cell::new(0) }
+        PeerW { ep: Ep::new(1, cfg, Instant::from_millis(0)), num, now: 0, peer_iss, peer_fin: -1, ts_on, ts_echo: std::cell::Cell::new(0), ts_count: std::cell::Cell::new(0), last_adv: std::cell::Cell::new((-1, -1)), max_edge: std::cell::Cell::new(0), sock_ws: std::cell::Cell::new(-1) }
     }
     /// Crafts a segment from relative numbers: seq relative to the peer's ISN, ack relative to the socket's ISN
     /// (absolute 0-based if the socket's ISN is not yet known).
@@ -1162,7 +1167,11 @@ pub fn peer_random(args: &Args) {
         // a peer that offers no window scaling to a listener whose buffer would need it reads every window field as
         // octets: it first probes just beyond the edge it can read (see below), which needs a stream that long
         let unscaled_probe = listener && peer_ws.is_none() && rx >= 65536;
-        let peer_total = if unscaled_probe { peer_total.max(rx as i64) } else { peer_total };
+        // ... and a peer that does offer scaling may not rely on more than the SYN-ACK's (unscaled) window before it has seen
+        // another advertisement: in half of those runs the segment that completes the handshake carries 100 octets just
+        // beyond that edge (inside the buffer), then the stream in order up to there
+        let early_probe = listener && peer_ws.is_some() && rx >= 65536 + 200 && rng.chance(50);
+        let peer_total = if unscaled_probe || early_probe { peer_total.max(rx as i64) } else { peer_total };
         // (no burst limit on the device here: the interface then accepts more than the window it lets out, and the rules that
         // judge a hostile peer's segments against the advertised window would have to be weakened; the pair world has it)
         t.ev(json!({"ev":"reset","run":run,"world":"tcp_peer","src":"random","seed":seed0,"cfg":[{"rx":65535,"tx":65535,"mtu":mtu,"cc":0,"ad":-1,"nagle":false,"ts":false,"isn":peer_iss as i64,"scripted":true},
@@ -1212,10 +1221,42 @@ pub fn peer_random(args: &Args) {
                     continue;
                 }
             }
-            let f = w.craft(1, Some(1), 0, false, false, false, rng.range(0, 65535) as u16, None, None);
+            let early_at = w.max_edge.get() + 50;
+            let f = if early_probe && w.ep.state() == "SYN-RECEIVED" && early_at + 100 <= rx as i64 {
+                w.craft(early_at, Some(1), 100, false, false, false, 1000, None, None)
+            } else {
+                w.craft(1, Some(1), 0, false, false, false, rng.range(0, 65535) as u16, None, None)
+            };
             w.now += 1;
             if !w.inject(f, &mut t, json!({})) {
                 continue;
+            }
+            if early_probe && w.ep.state() == "ESTABLISHED" && early_at + 100 <= rx as i64 {
+                // the stream in order up to the probe, never beyond what the latest advertisement allows (window fields
+                // scaled by the shift of the socket's SYN-ACK: both sides offered scaling)
+                let sh = w.sock_ws.get().max(0);
+                let mut ok = true;
+                let mut nxt: i64 = 1;
+                let mut guard = 0;
+                while ok && nxt < early_at && guard < 200 {
+                    guard += 1;
+                    let (a, wn) = w.last_adv.get();
+                    let edge = if a >= 1 { a + (wn << sh) } else { w.max_edge.get() };
+                    let len = 1400i64.min(early_at - nxt).min(edge - nxt);
+                    if len <= 0 {
+                        break;
+                    }
+                    let f = w.craft(nxt, Some(1), len as usize, false, false, false, 1000, None, None);
+                    w.now += 1;
+                    ok = w.inject(f, &mut t, json!({"probe": "early"}));
+                    w.now += 12;
+                    ok = ok && w.timer_poll(&mut t, json!({}));
+                    nxt += len;
+                }
+                peer_nxt = peer_nxt.max(nxt);
+                if !ok {
+                    continue;
+                }
             }
             if unscaled_probe && w.ep.state() == "ESTABLISHED" {
                 // one octet in order draws an acknowledgment with a window field; 100 octets just beyond the edge that field
